@@ -105,7 +105,12 @@ fn gen_observe(rng: &mut Rng, events: &[EventDef], t: usize, ev: usize) -> Op {
 
 fn generate(rng: &mut Rng, lim: &Limits) -> HistScenario {
     let n_events = rng.range_usize(1, lim.max_events);
-    let events: Vec<EventDef> = (0..n_events).map(|_| draw::event_def(rng, lim.small_buckets, true)).collect();
+    let mut events: Vec<EventDef> = (0..n_events).map(|_| draw::event_def(rng, lim.small_buckets, true)).collect();
+    if lim.small_buckets && rng.chance(1, 2) {
+        // Small histories (Miri): make sure the >= 63-bucket copy path is exercised often.
+        let n = rng.range_usize(63, 66);
+        events[0].buckets = draw::bucket_set(rng, n);
+    }
     let threads = rng.range_usize(1, lim.max_threads0);
     let n_ops = rng.range_usize(4, lim.max_ops);
     let mut st = GenState {
@@ -681,6 +686,23 @@ fn shrink(sc: &HistScenario) -> Vec<HistScenario> {
         .into_iter()
         .map(|ops| HistScenario { ops, ..sc.clone() })
         .collect();
+    // Drop an event no operation refers to (renumbering the others).
+    for k in 0..sc.events.len() {
+        let used = sc.ops.iter().any(|op| matches!(op, Op::Build { ev, .. } | Op::Observe { ev, .. } if *ev == k));
+        if used || sc.events.len() < 2 {
+            continue;
+        }
+        let mut s = sc.clone();
+        s.events.remove(k);
+        for op in &mut s.ops {
+            if let Op::Build { ev, .. } | Op::Observe { ev, .. } = op {
+                if *ev > k {
+                    *ev -= 1;
+                }
+            }
+        }
+        out.push(s);
+    }
     // Fewer buckets (keep the tail: high indices are usually what matters, so drop from the front
     // in halves, then drop the last).
     for (k, e) in sc.events.iter().enumerate() {
@@ -709,7 +731,7 @@ fn shrink(sc: &HistScenario) -> Vec<HistScenario> {
 }
 
 fn size(sc: &HistScenario) -> usize {
-    sc.ops.iter().map(op_weight).sum::<usize>() + sc.events.iter().map(|e| e.buckets.len()).sum::<usize>()
+    sc.ops.iter().map(op_weight).sum::<usize>() + sc.events.iter().map(|e| 1 + e.buckets.len()).sum::<usize>()
 }
 
 /// Mode `strict`: long histories, native.
